@@ -237,6 +237,7 @@ let gen (line : string) : string =
      B: the builder chain — l = listen (TCP), b<k> = bind resolving to k addresses, u = bind_uds, v = listen_uds;
         tokens, socket kinds and the service a worker calls for a token come from the extracted Model/Builder.v
      ops: c<tok> a client connects (ids 1,2,..), f<cid> client cid closes (its service call ends), P / R pause / resume,
+          K<tok> a client connects and the service call for it panics (the worker dies; ServerInner restarts it),
           E<tok> a client connects while accept() fails with EMFILE (one-shot), +<ms> time passes
    After every op the model settles: Turn, every worker picks up its queue, repeated; printed per op:
      <op>=<cid>@<call>w<worker idx>,...  (connections whose service call started during the op)  /a<in progress per worker index, '.'-separated> *)
@@ -274,13 +275,32 @@ let bld_settle lz st =
   done;
   !st
 
+let poisoned : int list ref = ref []
+
 let bld_step lz call_of (st, cid) (o : string) : (state * int) * string =
   let nev = List.length st.trace in
   let rest () = String.sub o 1 (String.length o - 1) in
+  let panicked = ref [] in
   let st', cid' = match o.[0] with
     | 'c' -> (step lz st (E (Connect (nat_of_int (int_of_string (rest ())), n_of_int (cid + 1)))), cid + 1)
     | 'E' -> let t = nat_of_int (int_of_string (rest ())) in
         (step lz (step lz st (E (Inject (t, EOther)))) (E (Connect (t, n_of_int (cid + 1)))), cid + 1)
+    | 'K' ->
+        (* a connection whose service call panics synchronously: the worker that picks it up dies. The (guard, io) argument is
+           dropped by the unwinding, the ServerWorker is dropped (connection queue closes), its arbiter/runtime goes down and
+           drops the other connections in progress on that worker *)
+        let t = nat_of_int (int_of_string (rest ())) in
+        let c = n_of_int (cid + 1) in
+        poisoned := (cid + 1) :: !poisoned;
+        let st1 = bld_settle lz (step lz st (E (Connect (t, c)))) in
+        let g = ref (-1) in
+        List.iteri (fun i wk -> if List.exists (fun cn -> cn.c_id = c) wk.w_picked then g := i) st1.ws;
+        if !g < 0 then failwith ("poisoned connection was not dispatched: " ^ o);
+        let wk = List.nth st1.ws !g in
+        panicked := [int_of_n wk.w_idx];
+        let gn = nat_of_int !g in
+        let st2 = step lz (step lz st1 (E (Finish (gn, c)))) (E (Kill gn)) in
+        (List.fold_left (fun s cn -> if cn.c_id = c then s else step lz s (E (Finish (gn, cn.c_id)))) st2 wk.w_picked, cid + 1)
     | 'f' -> let c = n_of_int (int_of_string (rest ())) in
         let g = ref (-1) in
         List.iteri (fun i wk -> if List.exists (fun cn -> cn.c_id = c) wk.w_picked then g := i) st.ws;
@@ -290,17 +310,32 @@ let bld_step lz call_of (st, cid) (o : string) : (state * int) * string =
     | 'R' -> (step lz st (E (Command CResume)), cid)
     | '+' -> (step lz st (Advance (n_of_int (int_of_string (rest ())))), cid)
     | _ -> failwith ("bad scenario op " ^ o) in
-  let st' = bld_settle lz st' in
+  (* settle; ServerInner answers every WorkerFaulted(idx) by starting a replacement with the same index *)
+  let st' = ref (bld_settle lz st') in
+  let handled = ref nev in
+  for _ = 1 to 4 do
+    let evs = take (List.length !st'.trace - !handled) !st'.trace in
+    handled := List.length !st'.trace;
+    let faults = List.filter_map (function EvFaulted idx -> Some idx | _ -> None) (List.rev evs) in
+    if faults <> [] then begin
+      List.iter (fun idx -> st' := step lz !st' (E (Respawn idx))) faults;
+      st' := bld_settle lz !st'
+    end
+  done;
+  let st' = !st' in
   let evs = take (List.length st'.trace - nev) st'.trace in
   let served = List.filter_map (function
-    | EvDispatch (c, tok, _, idx, _) -> Some (int_of_n c, call_of tok, int_of_n idx)
+    | EvDispatch (c, tok, _, idx, _) when not (List.mem (int_of_n c) !poisoned) -> Some (int_of_n c, call_of tok, int_of_n idx)
     | _ -> None) evs in
   let served = List.sort compare served in
+  let dropped = List.sort compare (List.filter_map (function EvDropNoWorker c -> Some (int_of_n c) | _ -> None) evs) in
   let nw = List.fold_left (fun m wk -> max m (int_of_n wk.w_idx + 1)) 0 st'.ws in
   let act = List.init nw (fun i -> List.fold_left (fun a wk ->
     if int_of_n wk.w_idx = i then a + List.length wk.w_queue + List.length wk.w_picked else a) 0 st'.ws) in
   ((st', cid'), Printf.sprintf "%s=%s/a%s" o
-     (String.concat "," (List.map (fun (c, cl, i) -> Printf.sprintf "%d@%dw%d" c cl i) served))
+     (String.concat "," (List.map (fun i -> Printf.sprintf "x@w%d" i) !panicked
+                         @ List.map (fun (c, cl, i) -> Printf.sprintf "%d@%dw%d" c cl i) served
+                         @ List.map (fun c -> Printf.sprintf "%d@drop" c) dropped))
      (String.concat "." (List.map string_of_int act)))
 
 let bld (line : string) : string =
@@ -309,6 +344,7 @@ let bld (line : string) : string =
   let lz = z_of_int l in
   let ops = List.filter (fun s -> s <> "") (String.split_on_char ' ' (List.assoc "ops" fields)) in
   let st0 = init (nat_of_int w) kinds in
+  poisoned := [];
   let (_, outs) = List.fold_left (fun (acc, outs) o ->
     let (acc', s) = bld_step lz call_of acc o in (acc', s :: outs)) ((st0, 0), []) ops in
   String.concat " ; " (List.rev outs)
@@ -325,6 +361,7 @@ let bldgen (line : string) : string =
   let has c = String.contains flags c in
   let nl = List.length kinds in
   let acc = ref (init (nat_of_int w) kinds, 0) in
+  poisoned := [];
   let out = ref [] in
   let emit o = let (a, _) = bld_step lz call_of !acc o in acc := a; out := o :: !out in
   for _ = 1 to geti "len" do
@@ -337,13 +374,19 @@ let bldgen (line : string) : string =
     if picked <> [] then add 5 `F;
     if has 'c' then (if st.paused then add 4 `R else add 1 `P; if rand 8 = 0 then add 1 (if st.paused then `P else `R));
     if has 'i' && not backoff && not st.paused && available st.av then add 1 `E;
+    (* a poisoned connection must be dispatched at once (flag available, not paused, registered) to a live worker: every handle's worker is open *)
+    if has 'k' && not backoff && not st.paused && available st.av
+       && List.for_all (fun g -> match nth_error st.ws (nat_of_int g) with Some wk -> wk.w_open | None -> false) (List.map int_of_nat st.handles)
+       && List.for_all (fun ls -> ls.l_backlog = []) st.lsts then add 1 `K;
     if backoff then add 4 `T;
     (* real time passes between the ops of the implementation run: the 500 ms back-off is left at once *)
-    (match (if backoff then `T else pick_from !c) with
+    (* ... except for one Pause, whose effect does not depend on when the deadline passes: nothing is observable until Resume *)
+    (match (if backoff then (if has 'c' && not st.paused && rand 4 = 0 then `P else `T) else pick_from !c) with
      | `C -> emit (Printf.sprintf "c%d" (rand nl))
      | `F -> emit (Printf.sprintf "f%d" (pick_from picked))
      | `P -> emit "P" | `R -> emit "R"
      | `E -> emit (Printf.sprintf "E%d" (rand nl))
+     | `K -> emit (Printf.sprintf "K%d" (rand nl))
      | `T -> emit "+600")
   done;
   let st = fst !acc in
